@@ -37,6 +37,7 @@ fn any_message_5() -> (Bytes, usize) {
 // DRIVES: receive_acks, ClientTicks::ack_mutate_message, postcard_utils::from_buf, RepliconServer::receive
 // BOUNDS: one message of every length 0..=5 with arbitrary bytes on the acknowledgement channel from an authorized client with one in-flight mutate message; unwind 6 (stand-in CAP 4), receive_acks loops 4 (5 bytes hold at most 2 indices + 1 partial one)
 // UNWINDSET: verif_lifted::receive_acks=4
+// TERMINATION: verif_lifted::receive_acks
 #[kani::proof]
 #[kani::unwind(6)]
 #[kani::stub(<bytes::Bytes as core::ops::Drop>::drop, noop_bytes_drop)]
@@ -89,6 +90,7 @@ fn c06_receive_acks_authorized() {
 // BOUNDS: one message of every length 0..=5 with arbitrary bytes on the acknowledgement channel from a connected client that is NOT authorized (no ClientTicks); unwind 6 (stand-in CAP 4), receive_acks loops 4 (5 bytes hold at most 2 indices + 1 partial one)
 // ASSUME: the sender is still connected (messages of disconnected clients are removed by RepliconServer::remove_client)
 // UNWINDSET: verif_lifted::receive_acks=4
+// TERMINATION: verif_lifted::receive_acks
 #[kani::proof]
 #[kani::unwind(6)]
 #[kani::stub(<bytes::Bytes as core::ops::Drop>::drop, noop_bytes_drop)]
@@ -485,4 +487,347 @@ fn c11_idle_server_is_silent() {
     assert!(updates == 0 && mutates == 1);
     kani::cover!(graphs == 3, "all graph counts executed");
     kani::cover!(mutates == 1, "tracking message sent");
+}
+
+// -------------------------------------------------------------------------------------------
+// C01 / C02 / C08: collect_changes over the fake ServerWorld (one entity, two components)
+
+use crate::server::replication_messages::mutations::verif_kani as mutv;
+
+fn fns_id(index: u8) -> FnsId {
+    postcard::from_bytes(&[index]).unwrap()
+}
+
+/// A tick `age` ticks before `this_run`.
+fn ago(this_run: Tick, age: u32) -> Tick {
+    Tick::new(this_run.get().wrapping_sub(age))
+}
+
+#[derive(Clone, Copy, PartialEq)]
+enum Vis {
+    NoPolicy,
+    Visible,
+    Gained,
+    Hidden,
+}
+
+/// One `collect_changes` step for entity 0 with component A (every tick) and B (periodic, every
+/// 2nd tick) from a symbolic bookkeeping state. `LAST_RUN_AGE` ticks lie between two runs of the
+/// system.
+const LAST_RUN_AGE: u32 = 10;
+
+fn changes_step(vis: Vis) {
+    changes_step_with(vis, None, None, None)
+}
+
+/// `known` / `removal` / `marker_recent`: fix the corresponding symbolic choice (None = symbolic).
+fn changes_step_with(vis: Vis, known_fixed: Option<bool>, removal_fixed: Option<bool>, marker_recent_fixed: Option<bool>) {
+    changes_step_full(vis, known_fixed, removal_fixed, marker_recent_fixed, None)
+}
+
+/// `quiet`: this component is old and unchanged since before the acknowledged tick (never collected).
+fn changes_step_full(vis: Vis, known_fixed: Option<bool>, removal_fixed: Option<bool>, marker_recent_fixed: Option<bool>, quiet: Option<usize>) {
+    changes_step_scenario(vis, known_fixed, removal_fixed, marker_recent_fixed, quiet, None)
+}
+
+/// Age classes of a component relative to the acknowledged tick (age 100) and the last run (age 10).
+#[derive(Clone, Copy)]
+enum Class {
+    /// old, unchanged since before the acknowledged tick
+    Quiet,
+    /// old, changed after the acknowledged tick but before the last run
+    ChangedEarlier,
+    /// old, changed since the last run
+    ChangedNow,
+    /// inserted since the last run
+    Inserted,
+}
+
+fn class_ages(class: Class) -> (u32, u32) {
+    match class {
+        Class::Quiet => (900, 500),
+        Class::ChangedEarlier => (900, 50),
+        Class::ChangedNow => (900, 5),
+        Class::Inserted => (5, 5),
+    }
+}
+
+/// `scenario`: concrete (class of A, class of B, server tick) - the mutation path of collect_changes is
+/// only tractable with concrete change ticks (probe P29).
+fn changes_step_scenario(vis: Vis, known_fixed: Option<bool>, removal_fixed: Option<bool>, marker_recent_fixed: Option<bool>, quiet: Option<usize>, scenario: Option<(Class, Class, u32)>) {
+    // The current change tick is concrete (Bevy's own tick arithmetic is not the subject; with a symbolic
+    // tick CBMC cannot fold the age comparisons and the mutation path becomes intractable, probe P29).
+    let this_run = Tick::new(5000);
+    let change_tick = SystemChangeTick { last_run: ago(this_run, LAST_RUN_AGE), this_run };
+    let server_tick = RepliconTick::new(match scenario {
+        Some((_, _, tick)) => tick,
+        None => kani::any(),
+    });
+
+    // ---- symbolic world state: ages of the change ticks (0 < age <= 1000; "recent" = since the last run)
+    let concrete_probe = scenario.is_some();
+    let marker_added_age: u32 = if concrete_probe { 950 } else { kani::any() };
+    let (added_age, changed_age): ([u32; 2], [u32; 2]) = match scenario {
+        Some((a, b, _)) => ([class_ages(a).0, class_ages(b).0], [class_ages(a).1, class_ages(b).1]),
+        None => (kani::any(), kani::any()),
+    };
+    // ASSUME: change ticks are at most 1000 ticks old and a component cannot change before it was added
+    kani::assume(marker_added_age >= 1 && marker_added_age <= 1000);
+    if let Some(recent) = marker_recent_fixed {
+        kani::assume((marker_added_age < LAST_RUN_AGE) == recent);
+    }
+    for k in 0..2 {
+        kani::assume(changed_age[k] >= 1 && changed_age[k] <= added_age[k] && added_age[k] <= marker_added_age.max(added_age[k]) && added_age[k] <= 1000);
+    }
+    let component = |k: usize, value: u8| FakeComponent {
+        value,
+        ticks: ComponentTicks { added: ago(this_run, added_age[k]), changed: ago(this_run, changed_age[k]) },
+    };
+    let mut rule_b = ComponentRule::new(ComponentId::new(1), fns_id(1));
+    rule_b.send_rate = SendRate::Periodic(2);
+    let world = ServerWorld {
+        archetypes: vec![FakeArchetype {
+            entities: vec![FakeEntity {
+                id: ENTS[0],
+                marker_ticks: ComponentTicks { added: ago(this_run, marker_added_age), changed: ago(this_run, marker_added_age) },
+                components: vec![component(0, 0x81), component(1, 0x82)],
+            }],
+            replicated: ReplicatedArchetype {
+                components: vec![
+                    (ComponentRule::new(ComponentId::new(0), fns_id(0)), StorageType::Table),
+                    (rule_b, StorageType::Table),
+                ],
+            },
+        }],
+    };
+
+    // ---- client state
+    let visibility = match vis {
+        Vis::NoPolicy => None,
+        Vis::Visible => Some(ClientVisibility::blacklist()),
+        Vis::Gained => {
+            let mut v = ClientVisibility::blacklist();
+            v.set_visibility(ENTS[0], false);
+            for _ in v.drain_lost() {}
+            v.update();
+            v.set_visibility(ENTS[0], true);
+            Some(v)
+        }
+        Vis::Hidden => {
+            let mut v = ClientVisibility::blacklist();
+            v.set_visibility(ENTS[0], false);
+            Some(v)
+        }
+    };
+    let mut rows = [ClientRow::authorized(CLIENTS[0], 1200, visibility)];
+    if let Some(k) = quiet {
+        if k < 2 {
+            kani::assume(added_age[k] == 1000 && changed_age[k] == 1000);
+        }
+    }
+
+    let known: bool = match known_fixed {
+        Some(known) => known,
+        None => kani::any(),
+    };
+    let belief_age: u32 = if concrete_probe { 100 } else { kani::any() };
+    kani::assume(belief_age >= 1 && belief_age <= 1000);
+    if known {
+        // The server believes the client holds every change of the entity older than this tick.
+        rows[0].auth_mut().ticks.set_mutation_tick(ENTS[0], ago(this_run, belief_age));
+    }
+    let mut removal_buffer = RemovalBuffer::default();
+    let removal_pending: bool = match removal_fixed {
+        Some(pending) => pending,
+        None => kani::any(),
+    };
+    if removal_pending {
+        removal_buffer.removals.insert(ENTS[0], Vec::new());
+    }
+    let related = RelatedEntities::default();
+    let mut serialized = SerializedData::default();
+    {
+        let auth = rows[0].auth_mut();
+        auth.updates.clear();
+        auth.mutations.clear();
+        auth.mutations.resize_related(0);
+    }
+
+    collect_changes(
+        &mut serialized,
+        &mut Query::new(&mut rows),
+        &ReplicationRegistry,
+        &AppTypeRegistry,
+        &related,
+        &removal_buffer,
+        &world,
+        &change_tick,
+        server_tick,
+    )
+    .unwrap();
+
+    // ---- reference: what must have been collected
+    let recent = |age: u32| age < LAST_RUN_AGE; // is_added / newer than last_run
+    let marker_added = recent(marker_added_age);
+    let hidden = vis == Vis::Hidden;
+    let new_entity = marker_added || vis == Vis::Gained;
+    let due = [true, server_tick.get() % 2 == 0];
+    let mut insertion = [false; 2];
+    let mut mutation = [false; 2];
+    for k in 0..2 {
+        insertion[k] = !known || new_entity || recent(added_age[k]);
+        mutation[k] = !insertion[k] && changed_age[k] < belief_age && due[k];
+    }
+    let structural = new_entity || insertion[0] || insertion[1] || removal_pending;
+    let auth = rows[0].auth();
+    let change_records = upd::changes_len(&auth.updates);
+    let mutated_entities = mutv::standalone_len(&auth.mutations);
+    let belief_after = auth.ticks.mutation_tick(ENTS[0]);
+    let belief_before = if known { Some(ago(this_run, belief_age)) } else { None };
+    if hidden {
+        // C08: nothing about a hidden entity is collected for this client.
+        assert!(change_records == 0 && mutated_entities == 0);
+        assert!(belief_after == belief_before);
+    } else if structural {
+        // C02: an entity with any insertion / removal / (re)appearance is sent atomically in the
+        // update message: every collected mutation is merged into it, none stays in a mutate message.
+        assert!(change_records == 1 && mutated_entities == 0);
+        let expected_components = insertion.iter().filter(|&&b| b).count() + mutation.iter().filter(|&&b| b).count();
+        assert!(upd::change_components_len(&auth.updates, 0) == expected_components);
+        assert!(belief_after == Some(this_run));
+    } else {
+        // C11: only what changed since the acknowledged tick is sent, as a mutation.
+        assert!(change_records == 0);
+        let expected_components = mutation.iter().filter(|&&b| b).count();
+        assert!(mutated_entities == if expected_components > 0 { 1 } else { 0 });
+        if expected_components > 0 {
+            assert!(mutv::standalone_components_len(&auth.mutations, 0) == expected_components);
+        }
+        assert!(belief_after == belief_before);
+    }
+    // C01 (convergence invariant, server half): a change the client does not have yet is either
+    // put on the wire in this tick or still newer than the server's belief afterwards (so that a
+    // later tick sends it).
+    if !hidden {
+        for k in 0..2 {
+            let pending = !known || changed_age[k] < belief_age;
+            let written = insertion[k] || mutation[k];
+            let still_newer = match belief_after {
+                None => true,
+                Some(belief) => ago(this_run, changed_age[k]).is_newer_than(belief, this_run),
+            };
+            if pending {
+                assert!(written || still_newer);
+            }
+        }
+    }
+    kani::cover!(change_records + mutated_entities <= 1, "reached the end");
+    kani::cover!(hidden || change_records + mutated_entities == 1 || (known && !structural), "something was collected, or nothing had to be");
+    core::mem::forget((rows, world, serialized, removal_buffer, related));
+}
+
+// HARNESS: c01_collect_changes_mutations
+// PROPS: C01 C02 C11
+// TIER: quick
+// TIMEOUT: 1500
+// DRIVES: collect_changes, Updates::add_changed_entity, Updates::add_inserted_component, Updates::take_added_entity, Mutations::add_entity, Mutations::add_component, Mutations::pop, ClientTicks::mutation_tick, ClientTicks::set_mutation_tick, SendRate::send_mutations, write_entity_cached
+// BOUNDS: no visibility policy; the client knows the entity (acknowledged tick 100 ticks old, last run 10 ticks ago); component A every tick, B periodic (period 2); concrete scenarios (class of A, class of B, server tick, removal pending): A changed / B changed and due / B changed but not due (nothing sent, belief unchanged) / nothing changed; fake ServerWorld/registry (DESIGN 3.1); unwind 6
+#[kani::proof]
+#[kani::unwind(6)]
+#[kani::stub(log::max_level, log_off)]
+fn c01_collect_changes_mutations() {
+    changes_step_scenario(Vis::NoPolicy, Some(true), Some(false), Some(false), None, Some((Class::ChangedEarlier, Class::Quiet, 4)));
+    changes_step_scenario(Vis::NoPolicy, Some(true), Some(false), Some(false), None, Some((Class::Quiet, Class::ChangedEarlier, 4)));
+    changes_step_scenario(Vis::NoPolicy, Some(true), Some(false), Some(false), None, Some((Class::Quiet, Class::ChangedEarlier, 5)));
+    changes_step_scenario(Vis::NoPolicy, Some(true), Some(false), Some(false), None, Some((Class::Quiet, Class::Quiet, 4)));
+    kani::cover!(true, "all scenarios executed");
+    kani::cover!(LAST_RUN_AGE == 10, "age classes as documented");
+}
+
+// HARNESS: c01_collect_changes_structural
+// PROPS: C01 C02
+// TIER: quick
+// TIMEOUT: 1500
+// DRIVES: collect_changes, Updates::add_changed_entity, Updates::add_inserted_component, Updates::take_added_entity, Mutations::add_entity, Mutations::add_component, Mutations::pop, ClientTicks::mutation_tick, ClientTicks::set_mutation_tick, SendRate::send_mutations, write_entity_cached
+// BOUNDS: no visibility policy; the client knows the entity (acknowledged tick 100 ticks old, last run 10 ticks ago); component A every tick, B periodic (period 2); concrete scenarios (class of A, class of B, server tick, removal pending): A inserted / removal pending with both components changed and due (merged into the update message) / removal only; fake ServerWorld/registry (DESIGN 3.1); unwind 6
+#[kani::proof]
+#[kani::unwind(6)]
+#[kani::stub(log::max_level, log_off)]
+fn c01_collect_changes_structural() {
+    changes_step_scenario(Vis::NoPolicy, Some(true), Some(false), Some(false), None, Some((Class::Inserted, Class::Quiet, 4)));
+    changes_step_scenario(Vis::NoPolicy, Some(true), Some(true), Some(false), None, Some((Class::ChangedEarlier, Class::ChangedNow, 4)));
+    changes_step_scenario(Vis::NoPolicy, Some(true), Some(true), Some(false), None, Some((Class::Quiet, Class::Quiet, 4)));
+    kani::cover!(true, "all scenarios executed");
+    kani::cover!(LAST_RUN_AGE == 10, "age classes as documented");
+}
+
+// HARNESS: c01_periodic_change_swallowed_by_removal
+// PROPS: C01
+// TIER: quick
+// TIMEOUT: 1500
+// DRIVES: collect_changes, Updates::add_changed_entity, Updates::add_inserted_component, Updates::take_added_entity, Mutations::add_entity, Mutations::add_component, Mutations::pop, ClientTicks::mutation_tick, ClientTicks::set_mutation_tick, SendRate::send_mutations, write_entity_cached
+// BOUNDS: no visibility policy; the client knows the entity (acknowledged tick 100 ticks old, last run 10 ticks ago); component A every tick, B periodic (period 2); concrete scenarios (class of A, class of B, server tick, removal pending): removal pending while B has a change that is not due in this tick; fake ServerWorld/registry (DESIGN 3.1); unwind 6
+// EXPECT: known finding F-C01a if it fails (the tick bump swallows B's pending change)
+#[kani::proof]
+#[kani::unwind(6)]
+#[kani::stub(log::max_level, log_off)]
+fn c01_periodic_change_swallowed_by_removal() {
+    changes_step_scenario(Vis::NoPolicy, Some(true), Some(true), Some(false), None, Some((Class::ChangedEarlier, Class::ChangedEarlier, 5)));
+    kani::cover!(true, "all scenarios executed");
+    kani::cover!(LAST_RUN_AGE == 10, "age classes as documented");
+}
+
+// HARNESS: c01_periodic_change_swallowed_by_insertion
+// PROPS: C01
+// TIER: quick
+// TIMEOUT: 1500
+// DRIVES: collect_changes, Updates::add_changed_entity, Updates::add_inserted_component, Updates::take_added_entity, Mutations::add_entity, Mutations::add_component, Mutations::pop, ClientTicks::mutation_tick, ClientTicks::set_mutation_tick, SendRate::send_mutations, write_entity_cached
+// BOUNDS: no visibility policy; the client knows the entity (acknowledged tick 100 ticks old, last run 10 ticks ago); component A every tick, B periodic (period 2); concrete scenarios (class of A, class of B, server tick, removal pending): A inserted while B has a change that is not due in this tick; fake ServerWorld/registry (DESIGN 3.1); unwind 6
+// EXPECT: known finding F-C01a if it fails
+#[kani::proof]
+#[kani::unwind(6)]
+#[kani::stub(log::max_level, log_off)]
+fn c01_periodic_change_swallowed_by_insertion() {
+    changes_step_scenario(Vis::NoPolicy, Some(true), Some(false), Some(false), None, Some((Class::Inserted, Class::ChangedEarlier, 5)));
+    kani::cover!(true, "all scenarios executed");
+    kani::cover!(LAST_RUN_AGE == 10, "age classes as documented");
+}
+
+// HARNESS: c01_collect_changes_new_client_or_entity
+// PROPS: C01 C07
+// TIER: quick
+// TIMEOUT: 1500
+// DRIVES: collect_changes, Updates::add_changed_entity, Updates::add_inserted_component, ClientTicks::set_mutation_tick
+// BOUNDS: the client does not know the entity yet (just authorized / entity just started replicating): the complete entity must be sent as insertions whatever the change ticks are; unwind 6
+#[kani::proof]
+#[kani::unwind(6)]
+#[kani::stub(log::max_level, log_off)]
+fn c01_collect_changes_new_client_or_entity() {
+    changes_step_with(Vis::NoPolicy, Some(false), Some(false), None);
+}
+
+// HARNESS: c08_collect_changes_hidden
+// PROPS: C08 C01
+// TIER: quick
+// TIMEOUT: 1500
+// DRIVES: collect_changes, ClientVisibility::state, Updates::start_entity_changes, Updates::entity_visibility
+// BOUNDS: blacklist policy, entity hidden from the client; same symbolic bookkeeping state as c01_collect_changes_no_policy; nothing may be collected for the client; unwind 6
+#[kani::proof]
+#[kani::unwind(6)]
+#[kani::stub(log::max_level, log_off)]
+fn c08_collect_changes_hidden() {
+    changes_step(Vis::Hidden);
+}
+
+// HARNESS: c08_collect_changes_gained
+// PROPS: C08 C01 C02
+// TIER: quick
+// TIMEOUT: 1500
+// DRIVES: collect_changes, ClientVisibility::state, Updates::add_changed_entity, Updates::add_inserted_component, Updates::take_added_entity, ClientTicks::set_mutation_tick
+// BOUNDS: blacklist policy, entity regained visibility in this tick window; same symbolic bookkeeping state; the whole entity must be delivered in the update message; unwind 6
+#[kani::proof]
+#[kani::unwind(6)]
+#[kani::stub(log::max_level, log_off)]
+fn c08_collect_changes_gained() {
+    changes_step(Vis::Gained);
 }
